@@ -6,7 +6,8 @@ from hypothesis import strategies as st
 
 from ..core import Result
 from ..exact import Q
-from ..doubles import Model, Loss, Log, Faults, Injected, recording_imputer, recording_storage_class, num
+from ..doubles import (Model, Loss, Log, Faults, Injected, FAULT_CLASSES, is_injected, recording_imputer, recording_storage_class,
+                       num)
 from .. import cfgs, gen, ref, refx
 from . import c05
 
@@ -14,7 +15,7 @@ LEVEL = 'fault_enumeration'
 RULE = ("For each generated (explainer in {IncrementalPFI, IncrementalSage, BatchSage normal/original, IntervalSage}, small config, "
         "stream of 2..6 observations, seeds) a fault-free dry run counts the callback invocations K_t of every explain_one call t "
         "(model, loss, imputer-before-delegation, imputer-after, storage); then for EVERY (t, k <= K_t) the stream is replayed "
-        "deterministically from scratch with the k-th callback of call t raising; plus pairs of faults on consecutive calls (quick: a "
+        "deterministically from scratch with the k-th callback of call t raising (the exception class cycles with the position through a custom Exception, StopIteration, KeyError, ZeroDivisionError, ValueError, AttributeError, IndexError); plus pairs of faults on consecutive calls (quick: a "
         "sample, thorough: all). Oracle: the same exception object propagates out of explain_one; importance values, variances, "
         "marginal loss, model loss, marginal prediction (exact rationals) equal their values before the call; after catching and "
         "continuing the stream the independent exact reference restricted to the successful calls still agrees after every call "
@@ -29,12 +30,17 @@ ATTRS = {'pfi': ['importance_values', 'variances'],
          'batch': ['importance_values'], 'batch_original': ['importance_values'], 'interval': ['importance_values']}
 
 
+def _freeze(v):
+    """A value that later in-place mutation cannot change (estimates may hold mutable NumPy arrays)."""
+    if isinstance(v, dict):
+        return {k: _freeze(x) for k, x in v.items()}
+    if isinstance(v, np.ndarray):
+        return ('ndarray',) + tuple(float(x) for x in v.reshape(-1))
+    return v
+
+
 def _snap(ex, cls):
-    out = {}
-    for a in ATTRS[cls]:
-        v = getattr(ex, a)
-        out[a] = dict(v) if isinstance(v, dict) else v
-    return out
+    return {a: _freeze(getattr(ex, a)) for a in ATTRS[cls]}
 
 
 class Run:
@@ -118,17 +124,23 @@ class Run:
             seen_before = getattr(self.ex, 'seen_samples', None)
             mark = len(self.imputer.calls)
             self.faults.reset_window(plan.get(t))
+            if plan.get(t) is not None:
+                self.faults.exc_class = FAULT_CLASSES[(plan[t] + t) % len(FAULT_CLASSES)]   # the exception class varies with the position
             raised = None
+            other = None
             try:
                 self.ex.explain_one(x, y, **kw)
-            except Injected as e:
-                raised = e
-            except Exception as e:
+            except Exception as e:       # noqa: BLE001 - the injected fault comes in several exception classes
+                if is_injected(e) and e is self.faults.raised:
+                    raised = e
+                else:
+                    other = e
+            if other is not None:
                 kind = self.faults.kinds[-1] if self.faults.kinds else 'none'
                 if self.faults.raised is not None:
                     return counts, (f'C17:{self.cls}:{kind}:exception-replaced',
-                                    f'call {t + 1}: the injected fault was replaced by {e!r}')
-                return counts, (f'C17:{self.cls}:unexpected-exception:{type(e).__name__}', f'call {t + 1}: {e!r}')
+                                    f'call {t + 1}: the injected {type(self.faults.raised).__name__} was replaced by {other!r}')
+                return counts, (f'C17:{self.cls}:unexpected-exception:{type(other).__name__}', f'call {t + 1}: {other!r}')
             counts.append(self.faults.count)
             kinds = list(self.faults.kinds)
             self.faults.reset_window(None)
@@ -138,7 +150,7 @@ class Run:
                 kind = kinds[plan[t] - 1]
                 if raised is None:
                     return counts, (f'C17:{self.cls}:{kind}:exception-swallowed',
-                                    f'call {t + 1}: callback {plan[t]} ({kind}) raised but explain_one returned normally')
+                                    f'call {t + 1}: callback {plan[t]} ({kind}) raised {self.faults.exc_class.__name__} but explain_one returned normally')
                 after = _snap(self.ex, self.cls)
                 changed = [a for a in ATTRS[self.cls] if after[a] != before[a]]
                 if changed:
@@ -176,7 +188,7 @@ class Run:
                     return (f'C17:{self.cls}:resume:{a}',
                             f'after resuming, call {t + 1}: {a} disagrees with the reference over the successful calls: {bad}')
             if self.cls == 'sage':
-                tot = sum(self.ex.importance_values.values(), Q(0))
+                tot = sum((refx.lift(v) for v in self.ex.importance_values.values()), Q(0))
                 if not self.cmp.num(tot, want['marginal_loss'] - want['model_loss'], tol):
                     return 'C17:sage:resume:efficiency', f'call {t + 1}: C01 identity broken after resuming'
             return None
@@ -250,6 +262,11 @@ def cases(draw):
         for r in cfg['stream']:
             if r.get('n_inner') == 3:
                 r['n_inner'] = 2
+        if cls == 'sage' and draw(st.integers(0, 2)) == 0:
+            # float twin whose model returns size-one NumPy ARRAYS as output values (numeric but mutable)
+            cfg['mode'] = 'float'
+            cfg['model']['array_out'] = True
+            cfg['model'].pop('out_scale', None)
         return {'cls': cls, 'cfg': cfg}
     d = draw(st.integers(1, 3))
     stream = draw(cfgs.stream_st(d, 2, 4, per_call=False))
@@ -284,6 +301,6 @@ def run(ctx):
             totals['pair_plans'] += res.detail['pairs']
         return res
 
-    ctx.search('faults', cases(), run_case, ctx.n(60, 6400))
+    ctx.search('faults', cases(), run_case, ctx.n(100, 6400))
     ctx.extra.update(totals)
     ctx.extra['exhaustive_subspaces'] = ['per generated case: every (call t, callback k) single-fault position']
